@@ -40,6 +40,8 @@ def main():
     c.add_argument("--repo", default="/repo")
     t = sub.add_parser("selftest")
     t.add_argument("--mutants", action="store_true")
+    t.add_argument("--only", default=None, help="regex over mutant paths")
+    t.add_argument("--jobs", type=int, default=1, help="mutants checked concurrently")
     t.add_argument("--repo", default="/repo")
     x = sub.add_parser("extra")
     x.add_argument("what", choices=["vi", "suite", "vir"])
